@@ -382,9 +382,45 @@ def correspond(ctx, scale):
                                              f'({"non-finite" if not bool(torch.isfinite(v_).all()) else "different values"})', 'case': dict(name=cfg['name'], fill=str(fill))})
         if len(samples) < 4:
             samples.append(dict(config=cfg['name']))
+    from vector_quantize_pytorch import VectorQuantize as _VQ
+    # (7a) the FIRST call of a k-means codebook is a masked, frozen one (a frozen-codebook warm-up): the initialisation clusters the VALID tokens only - the
+    # resulting state is the one of the same first call on the packed valid tokens (same generator state), whatever the amount of padding
+    for ki in range(4 if not ctx.thorough else 16):
+        cos_k = ki % 2 == 0
+        try:
+            kw_k = dict(dim=3, codebook_size=4, kmeans_init=True, kmeans_iters=3, use_cosine_sim=cos_k, decay=0.5)
+            base_k = _VQ(**kw_k)
+            xk = torch.randn(1, 12, 3)
+            nvalid = 7
+            mk_ = torch.arange(12)[None, :] < nvalid
+            outs_k = []
+            for variant in ('padded', 'padded-wider', 'packed'):
+                mod_k = copy.deepcopy(base_k)
+                mod_k.train(ki % 4 < 2)
+                if variant == 'padded':
+                    xin, kwc = torch.where(mk_[..., None], xk, torch.full_like(xk, 9.0)), dict(mask=mk_)
+                elif variant == 'padded-wider':
+                    xin = torch.cat([torch.where(mk_[..., None], xk, torch.full_like(xk, -4.0)), torch.full((1, 12, 3), 2.5)], dim=1)
+                    kwc = dict(mask=torch.cat([mk_, torch.zeros(1, 12, dtype=torch.bool)], dim=1))
+                else:
+                    xin, kwc = xk[:, :nvalid], {}
+                torch.manual_seed(99)
+                random.seed(99)
+                with torch.no_grad():
+                    mod_k(xin, freeze_codebook=True, **kwc)
+                outs_k.append((variant, state_of(mod_k)))
+            evaluations += 1
+            dist['kmeans_masked_frozen_first_calls'] = dist.get('kmeans_masked_frozen_first_calls', 0) + 1
+            for variant, st_k in outs_k[:2]:
+                bad_k = [k_ for k_ in st_k if st_k[k_].dtype.is_floating_point and not torch.allclose(st_k[k_], outs_k[2][1][k_], atol=1e-5, rtol=1e-4)]
+                if bad_k:
+                    failures.append({'key': f'vq-kmeans:masked-frozen-first-call:state-depends-on-padding:cos={cos_k}', 'what': f'VectorQuantize({kw_k}) whose first call is masked and frozen ({variant}): '
+                                     f'{bad_k[:3]} differ from the first call on the packed valid tokens (padded rows took part in the k-means initialisation)', 'case': dict(kw=kw_k, variant=variant)})
+                    break
+        except Exception as ex:
+            failures.append({'key': f'vq-kmeans:masked-frozen-first-call:exception:{type(ex).__name__}', 'what': repr(ex), 'case': dict(cos=cos_k)})
     # (7b) `lens=` in every integer dtype a caller may hold lengths in, with sequences LONGER than the narrow dtypes can count (uint8 beyond 256, int8
     # beyond 128): the mask is position < length in exact integer arithmetic, whatever the dtype of `lens`
-    from vector_quantize_pytorch import VectorQuantize as _VQ
     for lt_i, lens_dt in enumerate((torch.int64, torch.int32, torch.int16, torch.uint8, torch.int8)):
         try:
             n_long = 300
